@@ -87,6 +87,9 @@ DEFAULT_PROFILE = {
     'enum_defval_via_type': True,  # D22
     'multi_import_clauses': True,
     'allow_no_imports': True,
+    'plain_type_from_local_tc': True,   # D35
+    'augments_forward_oid': True,       # D36: augmented row sorts after the augmenting row
+
     'oneline_short_texts': False,  # UNITS / DISPLAY-HINT / PRODUCT-RELEASE / capabilities REFERENCE without line breaks
      # a module without any IMPORTS clause (D30)
 }
@@ -392,6 +395,8 @@ class Builder(object):
             elif t['module'] != mod['name']:
                 if not t['tc'] and not self.prof['plain_type_imports']:
                     continue
+                if '-' in t['name'] and not self.prof['hyphen_imports']:
+                    continue
             out.append(t)
         return out
 
@@ -552,6 +557,19 @@ def _gen_type_decl(b, mod):
     name = b.names.upper()
     syn, info = b.syntax(mod, for_type=True, allow_bits=True)
     is_tc = mod['dialect'] != 'v1' and draw(st.booleans())
+    parent_tc = (isinstance(syn['base'], list) and syn['base'][0] == 'named'
+                 and any(t['name'] == syn['base'][1] and t['module'] == syn['base'][2] and (t['tc'] or t.get('tc_anc'))
+                         for t in b.types))
+    if is_tc and parent_tc:
+        # RFC 2579 3.5: the SYNTAX of a textual convention cannot refer to another textual convention
+        is_tc = False
+    if (not is_tc and parent_tc and syn['base'][2] == mod['name'] and not b.prof['plain_type_from_local_tc']):
+        syn, info = b.syntax(mod, for_type=True, allow_bits=True, allow_named=False)
+        parent_tc = False
+    if (False and not is_tc and mod['dialect'] != 'v1' and not b.prof['plain_type_from_local_tc']
+            and isinstance(syn['base'], list) and syn['base'][0] == 'named' and syn['base'][2] == mod['name']
+            and any(t['name'] == syn['base'][1] and t['module'] == mod['name'] and t['tc'] for t in b.types)):
+        is_tc = True
     if syn['base'] == 'BITS' and not is_tc and mod['dialect'] != 'v1':
         pass
     if draw(st.integers(0, 5)) == 0 and isinstance(syn['base'], str) and syn['base'] in ('INTEGER', 'OCTET STRING') and not is_tc:
@@ -563,7 +581,8 @@ def _gen_type_decl(b, mod):
         d = {'k': 'td', 'name': name, 'syntax': syn}
     b.types.append({'module': mod['name'], 'name': name, 'kind': info['kind'], 'enum': info['enum'],
                     'bits': info['bits'], 'tc': is_tc, 'chain': info['chain'] + 1,
-                    'constrained': info['constrained'], 'nat': info['nat'], 'fixedlen': info['fixedlen']})
+                    'constrained': info['constrained'], 'nat': info['nat'], 'fixedlen': info['fixedlen'],
+                    'tc_anc': bool(parent_tc)})
     return [d]
 
 
@@ -670,6 +689,8 @@ def _gen_table(b, mod):
     augments = None
     index = None
     others = [r for r in b.rows if (r['module'] == mod['name'] or b.prof['hyphen_imports'] or '-' not in r['name'])]
+    if not b.prof['augments_forward_oid']:
+        others = [r for r in others if r['module'] != mod['name'] or tuple(r['oid']) < tuple(rnum)]
     if others and not v1 and draw(st.integers(0, 3)) == 0:
         r = draw(st.sampled_from(others))
         augments = [r['module'], r['name']]
@@ -697,7 +718,7 @@ def _gen_table(b, mod):
              'ref': b.opt_txt(), 'augments': None, 'index': None, 'defval': None, 'oid': toid, 'num': list(tnum),
              'info': None}
     seq = {'k': 'seq', 'name': rtype, 'members': members}
-    b.rows.append({'module': mod['name'], 'name': rname})
+    b.rows.append({'module': mod['name'], 'name': rname, 'oid': list(rnum)})
     b.objects.append({'module': mod['name'], 'name': tname, 'role': 'table', 'access': 'not-accessible'})
     b.objects.append({'module': mod['name'], 'name': rname, 'role': 'row', 'access': 'not-accessible'})
     return [table, row, seq] + cols
@@ -767,14 +788,13 @@ def _gen_tt(b, mod):
 
 def _gen_og(b, mod):
     pool = [o for o in b.objects if o['role'] in ('scalar', 'column')]
+    pool = [o for o in pool if (o['module'] == mod['name'] or b.prof['hyphen_imports'] or '-' not in o['name'])]
     if not pool:
         return _gen_scalar(b, mod)
+    objs = _pick_refs(b, mod, pool, 1, 6) or [[pool[0]['module'], pool[0]['name']]]
     name = b.names.lower()
     oid, num = b.new_oid(mod)
     b.reg_node(mod, name, num)
-    objs = _pick_refs(b, mod, pool, 1, 6) or [[pool[0]['module'], pool[0]['name']]]
-    if not objs:
-        return []
     b.groups.append({'module': mod['name'], 'name': name})
     return [{'k': 'og', 'name': name, 'objects': objs, 'status': b.status(), 'descr': b.txt(), 'ref': b.opt_txt(),
              'oid': oid, 'num': list(num)}]
